@@ -1,5 +1,136 @@
-From Coq Require Import List Arith.
-Require Import MayV.Sync.ChanMpscModel MayV.Sync.ChanMpscInv MayV.Sync.ChanMpscThm.
+(* C06 - channels deliver every message exactly once, in per-sender order; a blocked receiver is woken
+   by the send that makes a value available.  Property theorems only: each is closed by `exact` of a
+   lemma proved under Sync/Chan*.v and followed by Print Assumptions.  Three model instances
+   (upper layer of DESIGN 2.1): mpsc, spsc (thread and coroutine receiver), mpmc. *)
+From Coq Require Import List Arith Sorted.
+Import ListNotations.
+Require MayV.Sync.ChanMpscModel MayV.Sync.ChanMpscInv MayV.Sync.ChanMpscThm MayV.Sync.ChanMpscAccept.
+Require MayV.Sync.ChanSpscModel MayV.Sync.ChanSpscInv MayV.Sync.ChanSpscThm.
+Require MayV.Sync.ChanMpmcModel MayV.Sync.ChanMpmcInv MayV.Sync.ChanMpmcThm.
+
+(* ======================================== mpsc ======================================== *)
+Module Mpsc.
+Import MayV.Sync.ChanMpscModel MayV.Sync.ChanMpscInv MayV.Sync.ChanMpscThm MayV.Sync.ChanMpscAccept.
+
+(* (i) the values pushed by successful sends are, in push order: what the receiver was handed (in that
+   order), then what drop_port / the final free dropped, then what is still queued *)
 Theorem C06_mpsc_accounting : forall s, Reach s -> sent s = rcvd s ++ drpd s ++ q s.
 Proof. exact mpsc_accounting. Qed.
 Print Assumptions C06_mpsc_accounting.
+
+(* every Ok-sent value is in exactly one of {received, dropped, queued}; nothing else is received *)
+Theorem C06_mpsc_exactly_once : forall s, Reach s ->
+  NoDup (rcvd s ++ drpd s ++ q s) /\ (forall v, In v (sent s) <-> In v (rcvd s) \/ In v (drpd s) \/ In v (q s)).
+Proof. exact mpsc_exactly_once. Qed.
+Print Assumptions C06_mpsc_exactly_once.
+
+(* per sender: handle a sent (a,0), (a,1), ... and the receiver got a prefix (a,0) ... (a,k-1), in order *)
+Theorem C06_mpsc_per_sender_order : forall s a, Reach s ->
+  filter (from a) (sent s) = map (pair a) (seq 0 (sn (Sd s a))) /\
+  exists k, k <= sn (Sd s a) /\ filter (from a) (rcvd s) = map (pair a) (seq 0 k).
+Proof. intros s a H. split; [exact (mpsc_sender_sequence s a H) | exact (mpsc_per_sender_order s a H)]. Qed.
+Print Assumptions C06_mpsc_per_sender_order.
+
+(* (ii) no lost wake-up *)
+Theorem C06_mpsc_no_lost_wakeup : forall s, Reach s ->
+  rp (R s) = RWait -> reason (Bk s (rb (R s))) = None -> (q s <> [] \/ chans s = 0) ->
+  exists a, sp (Sd s a) = STake \/ (sp (Sd s a) = SUnpark /\ sw (Sd s a) = rb (R s)).
+Proof. exact mpsc_no_lost_wakeup. Qed.
+Print Assumptions C06_mpsc_no_lost_wakeup.
+
+Theorem C06_mpsc_quiescent_receiver_not_parked_next_to_a_value : forall s, Reach s -> senders_quiet s ->
+  rp (R s) = RWait -> reason (Bk s (rb (R s))) = None -> q s = [] /\ chans s <> 0.
+Proof. exact mpsc_quiescent_not_stranded. Qed.
+Print Assumptions C06_mpsc_quiescent_receiver_not_parked_next_to_a_value.
+
+(* tie: every state along an accepted trace of the real code is a reachable state of the model *)
+Theorem C06_mpsc_accepted_traces_are_model_runs : forall tr sx, accept_all m_init tr = Some sx -> Reach (fst sx).
+Proof. exact accepted_trace_reaches. Qed.
+Print Assumptions C06_mpsc_accepted_traces_are_model_runs.
+
+Example C06_mpsc_nonvacuous :
+  let s := run init sch_wake in
+  Reach s /\ rp (R s) = RWait /\ reason (Bk s (rb (R s))) = None /\ q s = [(0, 0)] /\ sp (Sd s 0) = STake.
+Proof. exact wake_pending. Qed.
+End Mpsc.
+
+(* ======================================== spsc ======================================== *)
+Module Spsc.
+Import MayV.Sync.ChanSpscModel MayV.Sync.ChanSpscInv MayV.Sync.ChanSpscThm.
+
+Theorem C06_spsc_accounting : forall s, Reach true s -> sent s = rcvd s ++ drpd s ++ q s.
+Proof. exact spsc_accounting. Qed.
+Print Assumptions C06_spsc_accounting.
+
+Theorem C06_spsc_exactly_once : forall s, Reach true s ->
+  NoDup (rcvd s ++ drpd s ++ q s) /\ (forall v, In v (sent s) <-> In v (rcvd s) \/ In v (drpd s) \/ In v (q s)).
+Proof. exact spsc_exactly_once. Qed.
+Print Assumptions C06_spsc_exactly_once.
+
+(* the sender pushed 0, 1, 2, ...; the receiver got 0 ... k-1 in this order *)
+Theorem C06_spsc_order : forall s, Reach true s ->
+  sent s = seq 0 (sn (Sn s)) /\ exists k, k <= sn (Sn s) /\ rcvd s = seq 0 k.
+Proof. intros s H. split; [exact (spsc_sender_sequence s H) | exact (spsc_received_in_order s H)]. Qed.
+Print Assumptions C06_spsc_order.
+
+(* (ii) thread receiver *)
+Theorem C06_spsc_thread_no_lost_wakeup : forall s, Reach true s ->
+  rp (R s) = RPark -> ttok s = false -> (q s <> [] \/ chans s = 0) ->
+  sp (Sn s) = STake \/ (sp (Sn s) = SUnpark /\ sw (Sn s) = WT).
+Proof. exact spsc_thread_no_lost_wakeup. Qed.
+Print Assumptions C06_spsc_thread_no_lost_wakeup.
+
+(* (ii) coroutine receiver *)
+Theorem C06_spsc_coroutine_no_lost_wakeup : forall s, Reach true s ->
+  rp (R s) = RSusp -> runq s = false -> (q s <> [] \/ chans s = 0) ->
+  sp (Sn s) = STake \/ (sp (Sn s) = SUnpark /\ sw (Sn s) = WC).
+Proof. exact spsc_coroutine_no_lost_wakeup. Qed.
+Print Assumptions C06_spsc_coroutine_no_lost_wakeup.
+
+Theorem C06_spsc_quiescent_receiver_not_blocked_next_to_a_value : forall s, Reach true s -> sp (Sn s) = SIdle ->
+  (rp (R s) = RPark /\ ttok s = false) \/ (rp (R s) = RSusp /\ runq s = false) -> q s = [] /\ chans s <> 0.
+Proof. exact spsc_quiescent_not_stranded. Qed.
+Print Assumptions C06_spsc_quiescent_receiver_not_blocked_next_to_a_value.
+
+Example C06_spsc_nonvacuous :
+  let s := run true init [Recv false; RStep; RStep; RStep; RStep; RStep; Send; SStep; SStep] in
+  Reach true s /\ rp (R s) = RPark /\ ttok s = false /\ q s = [0] /\ sp (Sn s) = STake.
+Proof. exact spsc_thread_wake. Qed.
+End Spsc.
+
+(* ======================================== mpmc ======================================== *)
+Module Mpmc.
+Import MayV.Sync.ChanMpmcModel MayV.Sync.ChanMpmcInv MayV.Sync.ChanMpmcThm.
+
+Theorem C06_mpmc_accounting : forall s, Reach true true s -> sent s = map snd (rlog s) ++ drpd s ++ q s.
+Proof. exact mpmc_accounting. Qed.
+Print Assumptions C06_mpmc_accounting.
+
+(* rlog has one entry (receiver, value) per value handed out: received by exactly one receiver call *)
+Theorem C06_mpmc_exactly_once : forall s, Reach true true s ->
+  NoDup (map snd (rlog s) ++ drpd s ++ q s) /\
+  (forall v, In v (sent s) <-> In v (map snd (rlog s)) \/ In v (drpd s) \/ In v (q s)).
+Proof. exact mpmc_exactly_once. Qed.
+Print Assumptions C06_mpmc_exactly_once.
+
+(* per receiver r and sender a: the sequence numbers r got from a strictly increase *)
+Theorem C06_mpmc_per_receiver_order : forall s r a, Reach true true s -> StronglySorted lt (got s r a).
+Proof. exact mpmc_per_receiver_order. Qed.
+Print Assumptions C06_mpmc_per_receiver_order.
+
+(* (ii) while a sender (and a receiver) exists: permits = queued values; a permit holder finds a value;
+   the `unreachable!("... found no data")` arms are unreachable *)
+Theorem C06_mpmc_permits_are_values : forall s, Reach true true s -> txp s <> 0 -> rxp s <> 0 ->
+  length (q s) = sv s + length (hold s) + length (pend s).
+Proof. exact mpmc_permits_are_values. Qed.
+Print Assumptions C06_mpmc_permits_are_values.
+
+Theorem C06_mpmc_unreachable_is_unreachable : forall s r, Reach true true s ->
+  rp (Rv s r) <> RPanic /\ (rp (Rv s r) = Y3n -> txp s = 0).
+Proof. exact mpmc_unreachable_is_unreachable. Qed.
+Print Assumptions C06_mpmc_unreachable_is_unreachable.
+
+Theorem C06_mpmc_holder_finds_value : forall s r, Reach true true s -> rp (Rv s r) = Y2 -> txp s <> 0 -> q s <> [].
+Proof. exact mpmc_holder_finds_value. Qed.
+Print Assumptions C06_mpmc_holder_finds_value.
+End Mpmc.
